@@ -749,4 +749,285 @@ theorem sleep_never_returns (cfg : Cfg) (as : List Act) (s s' : St) (i : Nat) (w
       obtain ⟨w', hi', hst'⟩ := sleep_parked_step cfg s s1 i w left a hi hst (has a (List.mem_cons_self)) h1
       exact ih s1 w' hi' hst' (fun b hb => has b (List.mem_cons_of_mem _ hb)) h
 
+/-! ### lock nesting (round 6) -/
+namespace Locks
+
+/-- a ranking of the mutexes along which every nesting edge strictly rises -/
+def Ranked (rk : Nat → Nat) (nest : Nest) : Prop := ∀ a b, (a, b) ∈ nest → rk a < rk b
+
+theorem ranked_Ranked (rank : List Nat) (nest : Nest) (h : ranked rank nest = true) : Ranked (pos rank) nest := by
+  intro a b hab
+  have := (List.all_eq_true.mp h) (a, b) hab
+  simp at this
+  exact this.1
+
+theorem reach_rises (rk : Nat → Nat) (nest : Nest) (hr : Ranked rk nest) :
+    ∀ fuel a b, reach nest fuel a b = true → rk a < rk b := by
+  intro fuel
+  induction fuel with
+  | zero =>
+    intro a b h
+    simp only [reach, List.any_eq_true, Bool.and_eq_true, beq_iff_eq] at h
+    obtain ⟨⟨x, y⟩, hm, h1, h2⟩ := h
+    simp at h1 h2; subst h1; subst h2
+    exact hr _ _ hm
+  | succ n ih =>
+    intro a b h
+    simp only [reach, List.any_eq_true, Bool.and_eq_true, Bool.or_eq_true, beq_iff_eq] at h
+    obtain ⟨⟨x, y⟩, hm, h1, h2⟩ := h
+    simp at h1; subst h1
+    rcases h2 with h2 | h2
+    · simp at h2; subst h2; exact hr _ _ hm
+    · have := ih y b h2
+      have := hr _ _ hm
+      omega
+
+/-- a ranked relation has no mutex on a cycle (in particular no self edge) -/
+theorem ranked_acyclic (rk : Nat → Nat) (nest : Nest) (hr : Ranked rk nest) (m : Nat) : onCycle nest m = false := by
+  cases h : onCycle nest m with
+  | false => rfl
+  | true => exact absurd (reach_rises rk nest hr _ m m h) (Nat.lt_irrefl _)
+
+/-- invariant of the lock sub-model: the mutex a worker waits for ranks above everything it holds -/
+def LInv (rk : Nat → Nat) (ws : List LW) : Prop :=
+  ∀ w ∈ ws, ∀ m, w.want = some m → ∀ h ∈ w.held, rk h < rk m
+
+theorem mem_set_cases {α} (l : List α) (i : Nat) (x y : α) (h : y ∈ l.set i x) : y = x ∨ y ∈ l := by
+  induction l generalizing i with
+  | nil => simp at h
+  | cons a as ih =>
+    cases i with
+    | zero => simp at h; rcases h with h | h <;> simp [h]
+    | succ j =>
+      simp at h
+      rcases h with h | h
+      · simp [h]
+      · rcases ih j h with h | h <;> simp [h]
+
+theorem linv_step (rk : Nat → Nat) (nest : Nest) (hr : Ranked rk nest) (ws ws' : List LW) (a : LAct)
+    (hi : LInv rk ws) (hs : lstep nest ws a = some ws') : LInv rk ws' := by
+  cases a with
+  | acquire i m =>
+    simp only [lstep] at hs
+    split at hs
+    · simp at hs
+    · rename_i w hw
+      split at hs
+      · rename_i hc
+        simp at hs; subst hs
+        intro w' hw' m' hm' h hh
+        rcases mem_set_cases _ _ _ _ hw' with e | e
+        · subst e
+          simp at hm'; subst hm'
+          have := (List.all_eq_true.mp hc.2.2) h hh
+          simp at this
+          exact hr _ _ this
+        · exact hi w' e m' hm' h hh
+      · simp at hs
+  | grant i =>
+    simp only [lstep] at hs
+    split at hs
+    · simp at hs
+    · rename_i w hw
+      split at hs
+      · simp at hs
+      · split at hs
+        · simp at hs
+        · simp at hs; subst hs
+          intro w' hw' m' hm' h hh
+          rcases mem_set_cases _ _ _ _ hw' with e | e
+          · subst e; simp at hm'
+          · exact hi w' e m' hm' h hh
+  | release i =>
+    simp only [lstep] at hs
+    split at hs
+    · simp at hs
+    · rename_i w hw
+      split at hs
+      · rename_i x rest hwant hheld
+        simp at hs; subst hs
+        intro w' hw' m' hm' h hh
+        rcases mem_set_cases _ _ _ _ hw' with e | e
+        · subst e; simp at hm'; rw [hwant] at hm'; simp at hm'
+        · exact hi w' e m' hm' h hh
+      · simp at hs
+
+theorem linv_reach (rk : Nat → Nat) (nest : Nest) (hr : Ranked rk nest) (init ws : List LW)
+    (h0 : fresh init = true) (h : LReach nest init ws) : LInv rk ws := by
+  induction h with
+  | init =>
+    intro w hw m hm
+    have := (List.all_eq_true.mp h0) w hw
+    simp [hm] at this
+  | step a _ hs ih => exact linv_step rk nest hr _ _ a ih hs
+
+/-- a list has an element of maximal `f` -/
+theorem exists_max {α} (f : α → Nat) : ∀ l : List α, l ≠ [] → ∃ x ∈ l, ∀ y ∈ l, f y ≤ f x := by
+  intro l
+  induction l with
+  | nil => intro h; exact absurd rfl h
+  | cons a as ih =>
+    intro _
+    cases as with
+    | nil => exact ⟨a, by simp, by simp⟩
+    | cons b bs =>
+      obtain ⟨x, hx, hmax⟩ := ih (by simp)
+      by_cases hle : f x ≤ f a
+      · refine ⟨a, by simp, ?_⟩
+        intro y hy
+        simp at hy
+        rcases hy with rfl | hy
+        · exact Nat.le_refl _
+        · have := hmax y (by simpa using hy); omega
+      · refine ⟨x, List.mem_cons_of_mem _ hx, ?_⟩
+        intro y hy
+        simp at hy
+        rcases hy with rfl | hy
+        · omega
+        · exact hmax y (by simpa using hy)
+
+theorem release_enabled (nest : Nest) (ws : List LW) (i : Nat) (w : LW) (hw : ws[i]? = some w)
+    (hwant : w.want = none) (hheld : w.held ≠ []) : (lstep nest ws (.release i)).isSome = true := by
+  simp only [lstep, hw]
+  cases hh : w.held with
+  | nil => exact absurd hh hheld
+  | cons x rest => simp [hwant]
+
+theorem grant_enabled (nest : Nest) (ws : List LW) (i : Nat) (w : LW) (m : Nat) (hw : ws[i]? = some w)
+    (hwant : w.want = some m) (hfree : heldBy ws m = false) : (lstep nest ws (.grant i)).isSome = true := by
+  simp [lstep, hw, hwant, hfree]
+
+/-- wanted rank + 1 (0 = wants nothing) -/
+def wantRk (rk : Nat → Nat) (w : LW) : Nat := match w.want with | some m => rk m + 1 | none => 0
+
+/-- **deadlock freedom under a lock order:** in a state satisfying the invariant, if anybody holds or wants a mutex, the
+runtime can grant a request or a holder can release -/
+theorem progress_of_inv (rk : Nat → Nat) (nest : Nest) (ws : List LW) (hi : LInv rk ws) (hq : quiet ws = false) :
+    canMove nest ws := by
+  have hne : ws ≠ [] := by intro h; subst h; simp [quiet] at hq
+  obtain ⟨w, hw, hmax⟩ := exists_max (wantRk rk) ws hne
+  obtain ⟨i, hi', hget⟩ := List.mem_iff_getElem.mp hw
+  have hwi : ws[i]? = some w := by simp [List.getElem?_eq_getElem hi', hget]
+  cases hwant : w.want with
+  | none =>
+    -- nobody wants anything: somebody holds with nothing wanted -> release
+    have hall : ∀ y ∈ ws, y.want = none := by
+      intro y hy
+      have := hmax y hy
+      cases hyw : y.want with
+      | none => rfl
+      | some m => simp [wantRk, hyw, hwant] at this
+    have : ∃ y ∈ ws, y.held ≠ [] := by
+      false_or_by_contra
+      rename_i hcon
+      have : quiet ws = true := by
+        apply List.all_eq_true.mpr
+        intro y hy
+        have h1 := hall y hy
+        have h2 : y.held = [] := by
+          false_or_by_contra
+          rename_i h2; exact hcon ⟨y, hy, h2⟩
+        simp [h1, h2]
+      rw [this] at hq; exact Bool.noConfusion hq
+    obtain ⟨y, hy, hyh⟩ := this
+    obtain ⟨j, hj, hgj⟩ := List.mem_iff_getElem.mp hy
+    exact ⟨j, Or.inr (release_enabled nest ws j y (by simp [List.getElem?_eq_getElem hj, hgj]) (hall y hy) hyh)⟩
+  | some m =>
+    cases hb : heldBy ws m with
+    | false => exact ⟨i, Or.inl (grant_enabled nest ws i w m hwi hwant hb)⟩
+    | true =>
+      simp only [heldBy, List.any_eq_true, List.contains_iff_mem] at hb
+      obtain ⟨y, hy, hym⟩ := hb
+      obtain ⟨j, hj, hgj⟩ := List.mem_iff_getElem.mp hy
+      have hyj : ws[j]? = some y := by simp [List.getElem?_eq_getElem hj, hgj]
+      cases hyw : y.want with
+      | none =>
+        exact ⟨j, Or.inr (release_enabled nest ws j y hyj hyw (by intro h; rw [h] at hym; simp at hym))⟩
+      | some m' =>
+        have h1 := hi y hy m' hyw m (by simpa using hym)
+        have h2 := hmax y hy
+        simp [wantRk, hyw, hwant] at h2
+        omega
+
+theorem lμ_set (ws : List LW) (i : Nat) (w w' : LW) (h : ws[i]? = some w) (hlt : lwμ w' < lwμ w) :
+    lμ (ws.set i w') < lμ ws := by
+  induction ws generalizing i with
+  | nil => simp at h
+  | cons x xs ih =>
+    cases i with
+    | zero => simp at h; subst h; simp only [List.set_cons_zero, lμ]; omega
+    | succ j => simp at h; have := ih j h; simp only [List.set_cons_succ, lμ]; omega
+
+/-- every step of the lock sub-model (the workers' `acquire` included) strictly decreases `lμ` -/
+theorem lstep_decreases (nest : Nest) (ws ws' : List LW) (a : LAct) (hs : lstep nest ws a = some ws') :
+    lμ ws' < lμ ws := by
+  cases a with
+  | acquire i m =>
+    simp only [lstep] at hs
+    split at hs
+    · simp at hs
+    · rename_i w hw
+      split at hs
+      · rename_i hc
+        simp at hs; subst hs
+        apply lμ_set _ _ w _ hw
+        have := hc.1; have := hc.2.1
+        simp [lwμ, *]; omega
+      · simp at hs
+  | grant i =>
+    simp only [lstep] at hs
+    split at hs
+    · simp at hs
+    · rename_i w hw
+      split at hs
+      · simp at hs
+      · rename_i m hm
+        split at hs
+        · simp at hs
+        · simp at hs; subst hs
+          apply lμ_set _ _ w _ hw
+          simp [lwμ, hm]
+          omega
+  | release i =>
+    simp only [lstep] at hs
+    split at hs
+    · simp at hs
+    · rename_i w hw
+      split at hs
+      · rename_i x rest hwant hheld
+        simp at hs; subst hs
+        apply lμ_set _ _ w _ hw
+        simp [lwμ, hwant, hheld]
+      · simp at hs
+
+theorem lexec_bounded (nest : Nest) : ∀ (as : List LAct) (ws ws' : List LW), lexec nest ws as = some ws' →
+    as.length + lμ ws' ≤ lμ ws := by
+  intro as
+  induction as with
+  | nil => intro ws ws' h; simp [lexec] at h; subst h; simp
+  | cons a as ih =>
+    intro ws ws' h
+    simp only [lexec] at h
+    split at h
+    · simp at h
+    · rename_i ws1 h1
+      have := ih ws1 ws' h
+      have := lstep_decreases nest ws ws1 a h1
+      simp only [List.length_cons]; omega
+
+theorem lreach_lexec (nest : Nest) (init : List LW) : ∀ (as : List LAct) (ws ws' : List LW),
+    LReach nest init ws → lexec nest ws as = some ws' → LReach nest init ws' := by
+  intro as
+  induction as with
+  | nil => intro ws ws' hr h; simp [lexec] at h; subst h; exact hr
+  | cons a as ih =>
+    intro ws ws' hr h
+    simp only [lexec] at h
+    split at h
+    · simp at h
+    · rename_i ws1 h1
+      exact ih ws1 ws' (LReach.step a hr h1) h
+
+end Locks
+
 end Shutdown
